@@ -169,9 +169,12 @@ def read_iotrace(path):
         off = int.from_bytes(d[i + 1:i + 9], "little")
         ln = int.from_bytes(d[i + 9:i + 17], "little")
         i += 17
-        if op == "W":
-            ev.append(("W", off, d[i:i + ln]))
+        if op in "Ww":
+            ev.append((op, off, d[i:i + ln]))
             i += ln
+        elif op in "ftoca":
+            # records of the second watched file keep their lower-case letter
+            ev.append({"f": ("f",), "t": ("t", off), "o": ("o", off), "c": ("c",), "a": ("a", off, ln)}[op])
         elif op == "F":
             ev.append(("F",))
         elif op == "T":
@@ -185,13 +188,15 @@ def read_iotrace(path):
     return ev
 
 
-def traced(cmd, watch, log, env=None, timeout=300, fail_at=None, kill_at=None, input=None):
-    """run cmd with the write-trace shim watching file [watch]"""
+def traced(cmd, watch, log, env=None, timeout=300, fail_at=None, kill_at=None, input=None, watch2=None):
+    """run cmd with the write-trace shim watching file [watch] (and [watch2]: lower-case events)"""
     so = build_iotrace()
     if os.path.exists(log):
         os.unlink(log)
     e = dict(env or {})
     e.update({"LD_PRELOAD": so, "IOTRACE_PATH": watch, "IOTRACE_LOG": log})
+    if watch2:
+        e["IOTRACE_PATH2"] = watch2
     if fail_at:
         e["IOTRACE_FAIL_AT"] = str(fail_at)
     if kill_at:
